@@ -536,3 +536,39 @@ func VerifC17_StableNames() {
 	zzverif.Assert(got == spec.text(), "nodes-and-typed-lines-are-what-the-rewrite-dictates")
 	zzverif.Reach("rendered")
 }
+
+// VerifC17_Lookup: label lookup and path queries for an arbitrary label (every byte string up to the
+// length bound; the solver decides which node, if any, it names): found exactly when it is the label of
+// a type, relation or wildcard node of the specification; a path query with it errs exactly then not.
+func VerifC17_Lookup() {
+	m, _ := fFamilyModel()
+	g, err := NewAuthorizationModelGraph(m)
+	if err != nil {
+		return
+	}
+	spec := pSpec(m)
+	s := zzverif.Str("label", 0, zzverif.Param("LEN", 6), "")
+	n, lerr := g.GetNodeByLabel(s)
+	named := false
+	var labels []string
+	for l := range spec.named {
+		labels = append(labels, l)
+	}
+	sort.Strings(labels)
+	for _, l := range labels {
+		if s == l {
+			named = true
+			zzverif.Assert(lerr == nil && n != nil && n.Label() == l && n.NodeType() == spec.named[l].kind, "label-lookup-returns-that-node")
+			zzverif.Reach("found")
+		}
+	}
+	if !named {
+		zzverif.Assert(lerr != nil && n == nil, "label-lookup-finds-nothing-else")
+		zzverif.Reach("absent")
+	}
+	_, e1 := g.PathExists(s, "doc#a")
+	_, e2 := g.PathExists("doc#a", s)
+	zzverif.Assert((e1 == nil) == named && (e2 == nil) == named, "path-query-errs-exactly-for-unknown-labels")
+	ok, e3 := g.PathExists(s, s)
+	zzverif.Assert((e3 == nil) == named && ok == named, "path-to-itself")
+}
